@@ -313,7 +313,7 @@ def _attach_tsan(flavour, logprefix, batch):
         batch[-1].meta = dict(batch[-1].meta or {}, tsan_log=text)
 
 
-def run_cases(flavour, cases, name, per_case_timeout=60, workers=None, extra_env=None, keep=False):
+def run_cases(flavour, cases, name, per_case_timeout=60, workers=None, extra_env=None, keep=False, isolate=False):
     """run cases on `workers` wbmon processes; fills case.results / case.crash; returns cases"""
     workers = workers or NCPU
     workdir = os.path.join(WORK, name)
@@ -327,9 +327,12 @@ def run_cases(flavour, cases, name, per_case_timeout=60, workers=None, extra_env
             path = os.path.join(workdir, fn)
             with open(path, 'wb' if isinstance(content, bytes) else 'w') as f:
                 f.write(content)
-    shards = [[] for _ in range(workers)]
-    for i, c in enumerate(cases):
-        shards[i % workers].append(c)
+    if isolate:
+        shards = [[c] for c in cases]          # a fresh process per case (no history from other cases)
+    else:
+        shards = [[] for _ in range(workers)]
+        for i, c in enumerate(cases):
+            shards[i % workers].append(c)
     jobs = [(flavour, i, s, workdir, per_case_timeout, extra_env) for i, s in enumerate(shards) if s]
     with concurrent.futures.ThreadPoolExecutor(max_workers=workers) as ex:
         list(ex.map(_run_shard, jobs))
